@@ -65,6 +65,8 @@ func main() {
 			genC10(rng, *n, *tier)
 		case "C11":
 			genC11(rng, *n, *tier)
+		case "C12":
+			genC12(rng, *n, *tier)
 		case "C13":
 			genC13(rng, *n, *tier)
 		case "C17":
